@@ -674,6 +674,7 @@ func (e *Env) evalCall(n *ECall) Val {
 		default:
 			r.S = ite(c.S, a.S, b.S)
 			r.C = nil
+			r.NZ = nil
 		}
 		return r
 	case "min", "max":
